@@ -32,6 +32,8 @@ var h14FlagSets = []h14Flags{
 	{[]string{"-filter", ".unit:ns/op", "-row", ".name,/s"}, ".config", ".name,/s", ".file", "", ".unit:ns/op"},
 	{[]string{"-table", "a", "-row", ".name", "-ignore", "/s,b"}, "a", ".name", ".file", "/s,b", "*"},
 	{[]string{"-ignore", ".fullname,b", "-row", ".name", "-table", "a"}, "a", ".name", ".file", ".fullname,b", "*"},
+	{[]string{"-col", "b,.file", "-table", "a"}, "a", ".fullname", "b,.file", "", "*"},
+	{[]string{"-col", "b,a,.file", "-table", ".name"}, ".name", ".fullname", "b,a,.file", "", "*"},
 }
 
 func h14Pick(name string, opts string) byte {
@@ -50,8 +52,12 @@ func h14Input(tag string, v0 string) (content []byte, a, b, s1, s2 byte) {
 	s1, s2 = h14Pick("s1"+tag, "12"), h14Pick("s2"+tag, "12")
 	content = append(content, "a: "...)
 	content = append(content, a, '\n')
-	content = append(content, "b: "...)
-	content = append(content, b, '\n')
+	if vndBool("hasb" + tag) { // the key b may be missing from a file
+		content = append(content, "b: "...)
+		content = append(content, b, '\n')
+	} else {
+		b = 0
+	}
 	content = append(content, "BenchmarkP/s="...)
 	content = append(content, s1)
 	content = append(content, (" 1 " + v0 + "1 ns/op 7 B/op\nBenchmarkP/s=")...)
